@@ -9,17 +9,17 @@ def run(ctx):
     hb = core.build_harness(ctx)
     total_b, total_eff, samples, counters = 0, 0, [], {}
     allhash = set()
-    for variant, mode in (("", ""), ("_logs", "logs")):
-        behs = core.generate(ctx, "Gen_Gate.tla", "Gen_Gate%s.cfg" % variant, 150 if quick else 3000, 12, ctx.seed, timeout=600)
-        if variant == "":
+    for variant, mode, name in (("", "", "gate"), ("_logs", "logs", "gate_logs"), ("", "pivot", "gate_pivot")):
+        behs = core.generate(ctx, "Gen_Gate.tla", "Gen_Gate%s.cfg" % variant, 150 if quick else 3000, 12, ctx.seed + (7 if mode == "pivot" else 0), timeout=600)
+        if name == "gate":
             behs = core.generate(ctx, "Gen_Gate.tla", "Gen_Gate_bfs.cfg", 0, 0, ctx.seed, bfs=True, timeout=600) + behs
-        trace, summ = core.run_harness(ctx, hb, "gate", behs, "gate" + variant, mode=mode, timeout=1500)
+        trace, summ = core.run_harness(ctx, hb, "gate", behs, name, mode=mode, timeout=1500)
         for inc in summ["incidents"]:
             core.report(ctx, {"check": "replay", "kind": inc["kind"], "site": inc["site"]}, inc)
-        v = core.validate_traces(ctx, "Trace_Gate.tla", "Trace_Gate_strict%s.cfg" % variant, "Trace_Gate_mon%s.cfg" % variant, trace, "gate" + variant)
+        v = core.validate_traces(ctx, "Trace_Gate.tla", "Trace_Gate_strict%s.cfg" % variant, "Trace_Gate_mon%s.cfg" % variant, trace, name)
         for x in v["violations"]:
             ev = json.loads(x["lines"][x["event"] - 1]) if 0 < x["event"] <= len(x["lines"]) else {}
-            core.report(ctx, {"check": "Mon_Gate", "invariant": x["invariant"], "class": ev.get("c", "?"), "sendlogs": mode == "logs"},
+            core.report(ctx, {"check": "Mon_Gate", "invariant": x["invariant"], "class": ev.get("c", "?"), "sendlogs": mode == "logs", "pivot": mode == "pivot"},
                         {"events": [json.loads(l) for l in x["lines"]], "failing_event": x["event"]})
         total_b += summ["behaviours"]; total_eff += summ["counters"].get("effects", 0); samples += summ["samples"]
         for k, val in summ["counters"].items(): counters[k] = counters.get(k, 0) + val
